@@ -108,6 +108,99 @@ Section ABF.
 
   Definition init (n : nat) : list walker := repeat (w_init 0) n.
 
+  (* ---- the exchange round in small steps: what each replica does between its blocking calls.
+     Replica 0 and the others are kept apart; n_k = the replica whose delta replica 0 waits for next
+     (it receives from 1, 2, .. in this order, each receive blocks until that replica has sent);
+     n_bc = replica 0 has sent the combined grid.  A message is "in flight" from the moment its sender
+     has performed the send until the receiver performs the receive: sends never block (buffered). *)
+  Inductive phase : Type := PhIdle | PhSent | PhGot | PhCollect | PhDone.
+  Record net := mkNet { n_root : walker * phase; n_others : list (walker * phase); n_k : nat; n_bc : bool }.
+
+  Inductive act : Type :=
+  | ASample (w : nat) (i : Z) (a : A)    (* a walker outside replica_share() accumulates a sample *)
+  | ARestart (w : nat) (t : Z)           (* ... or is restarted *)
+  | AStart (w : nat)                     (* walker w enters replica_share(): delta, local += delta; w > 0 sends its delta *)
+  | ARecv                                (* replica 0 receives the delta of replica n_k (which must have sent it) *)
+  | ABcast                               (* replica 0, having received all deltas, sends the combined grid to every replica *)
+  | AGet (w : nat)                       (* replica w > 0 receives the combined grid *)
+  | AFinish (t : Z).                     (* the barrier opens (all replicas are there): last := G, shared_last_step := t *)
+
+  Definition is_idle (x : walker * phase) : bool := match snd x with PhIdle => true | _ => false end.
+  Definition is_sent (x : walker * phase) : bool := match snd x with PhSent => true | _ => false end.
+  Definition is_got (x : walker * phase) : bool := match snd x with PhGot => true | _ => false end.
+
+  Definition on_walker (s : net) (w : nat) (f : walker -> walker * phase) : option net :=
+    match w with
+    | O => if is_idle (n_root s) then Some (mkNet (f (fst (n_root s))) (n_others s) (n_k s) (n_bc s)) else None
+    | S j => match nth_error (n_others s) j with
+             | Some x => if is_idle x
+                         then Some (mkNet (n_root s) (upd_nth j (fun y => f (fst y)) (n_others s)) (n_k s) (n_bc s))
+                         else None
+             | None => None
+             end
+    end.
+
+  Definition sstep (s : net) (a : act) : option net :=
+    match a with
+    | ASample w i x => on_walker s w (fun c => (w_sample c i x, PhIdle))
+    | ARestart w t => on_walker s w (fun c => (w_restart t c, PhIdle))
+    | AStart O => if is_idle (n_root s)
+                  then Some (mkNet (w_prepare (fst (n_root s)), PhCollect) (n_others s) 1 (n_bc s)) else None
+    | AStart (S j) => on_walker s (S j) (fun c => (w_prepare c, PhSent))
+    | ARecv => match snd (n_root s), nth_error (n_others s) (n_k s - 1) with
+               | PhCollect, Some x =>
+                   if is_sent x
+                   then let r := fst (n_root s) in
+                        Some (mkNet (mkW (grid_add (wG r) (wL (fst x))) (wL (fst x)) (wLoc r) (wlast r), PhCollect)
+                                    (n_others s) (S (n_k s)) (n_bc s))
+                   else None
+               | _, _ => None
+               end
+    | ABcast => match snd (n_root s) with
+                | PhCollect => if Nat.eqb (n_k s) (S (length (n_others s)))
+                               then Some (mkNet (fst (n_root s), PhDone) (n_others s) (n_k s) true) else None
+                | _ => None
+                end
+    | AGet O => None
+    | AGet (S j) => match nth_error (n_others s) j with
+                    | Some x => if is_sent x && n_bc s
+                                then Some (mkNet (n_root s)
+                                                 (upd_nth j (fun y => (w_receive (wG (fst (n_root s))) (fst y), PhGot)) (n_others s))
+                                                 (n_k s) (n_bc s))
+                                else None
+                    | None => None
+                    end
+    | AFinish t => match snd (n_root s) with
+                   | PhDone => if forallb is_got (n_others s)
+                               then Some (mkNet (w_finish t (fst (n_root s)), PhIdle)
+                                                (map (fun y => (w_finish t (fst y), PhIdle)) (n_others s)) 0 false)
+                               else None
+                   | _ => None
+                   end
+    end.
+
+  Fixpoint srun (acts : list act) (s : net) : option net :=
+    match acts with
+    | [] => Some s
+    | a :: tl => match sstep s a with Some s' => srun tl s' | None => None end
+    end.
+
+  Definition sinit (n : nat) : net :=
+    mkNet (w_init 0, PhIdle) (repeat (w_init 0, PhIdle) (pred n)) 0 false.
+
+  Definition all_idle (s : net) : bool := is_idle (n_root s) && forallb is_idle (n_others s).
+  Definition walkers_of (s : net) : list walker := fst (n_root s) :: map fst (n_others s).
+
+  (* the exchange-level trace an action sequence amounts to *)
+  Fixpoint project (acts : list act) : list ev :=
+    match acts with
+    | [] => []
+    | ASample w i x :: tl => ESample w i x :: project tl
+    | ARestart w t :: tl => ERestart w t :: project tl
+    | AFinish t :: tl => EExchange t :: project tl
+    | _ :: tl => project tl
+    end.
+
   (* replica_share_CZAR(): replica 0 copies its own z grids and adds those of p = 1 .. n-1 *)
   Definition czar_gather (zs : list grid) : grid :=
     match zs with
